@@ -438,6 +438,22 @@ Proof.
   - destruct (rf_get (Some (single_round v)) f (fs_buf x)) as [f' buf']. simpl. eauto.
 Qed.
 
+(* LOF() and LOC() are BASIC single-precision numbers *)
+Definition as_singles (l : list Z) : list Z :=
+  match l with
+  | [lof; loc; eof] => [single_trunc lof; single_trunc loc; eof]
+  | _ => l
+  end.
+
+Lemma single_trunc_small x : Z.abs x < 2 ^ 24 -> single_trunc x = x.
+Proof.
+  intro H. unfold single_trunc. cbv zeta.
+  assert (Hl : Z.log2 (Z.abs x) - 23 <= 0).
+  { destruct (Z.eq_dec (Z.abs x) 0) as [E|E]; [rewrite E; simpl; lia|].
+    assert (Z.log2 (Z.abs x) < 24) by (apply Z.log2_lt_pow2; lia). lia. }
+  replace (Z.log2 (Z.abs x) - 23 <=? 0) with true by lia. reflexivity.
+Qed.
+
 (* the statement-level model runs exactly the single-file operations of the refinement theorem *)
 Theorem wstep_runs_istep w n x f :
   wget n w = Some x -> fs_open x = Some f ->
@@ -447,7 +463,7 @@ Theorem wstep_runs_istep w n x f :
   (forall pos p, check_pos pos = Ok p ->
      let r := istep (mkI f (fs_buf x)) (RGet p) in
      wstep w (WGet n pos) = (wset n (mkFS (fs_disk x) (Some (i_file (fst r))) (i_buf (fst r))) w, Ok (snd r))) /\
-  wstep w (WQuery n) = (w, Ok (snd (istep (mkI f (fs_buf x)) RQuery))) /\
+  wstep w (WQuery n) = (w, Ok (as_singles (snd (istep (mkI f (fs_buf x)) RQuery)))) /\
   (forall off wd rj d, 0 <= off -> 0 <= wd -> off + wd <= field_size ->
      wstep w (WField n off wd rj d) =
        (wset n (mkFS (fs_disk x) (Some f) (i_buf (fst (istep (mkI f (fs_buf x)) (RSet off wd rj d))))) w, Ok [])).
